@@ -312,7 +312,7 @@ def library(draw, lang=None, max_decls=8, with_python=None, with_lua=None, featu
             sigs = draw(st.lists(st.sampled_from(["int", "double", "string", "none", "int,int"]),
                                  min_size=2, max_size=3, unique=True))
             # output.rst "C Preprocessor": members of an overload set under conditional compilation
-            cond = draw(st.sampled_from([None, None, ["ifdef VF_HAVE_A", "ifndef VF_HAVE_A", None],
+            cond = draw(st.sampled_from([None, ["ifdef VF_HAVE_A", "ifndef VF_HAVE_A", None],
                                          ["ifdef VF_HAVE_A", None, "ifdef VF_HAVE_B"]]))
             for isg, sg in enumerate(sigs):
                 ps = []
